@@ -67,7 +67,8 @@ pub fn generate_example(operation: &Operation, cfg: &Config, spec: &HirSpec) -> 
         import!(cfg.package_name(), cfg.client_name()),
     ];
     if use_required {
-        let struct_name = operation.required_struct_name();
+        // the same identifier the request module gives the struct
+        let struct_name = operation.required_struct_name().to_rust_struct();
         let file_name = operation.file_name();
         let package_name = cfg.package_name();
         imports.push(import!(format!("{package_name}::request::{file_name}::{struct_name}")));
